@@ -376,7 +376,23 @@ def F18():
     assert np.array_equal(np.ma.getmaskarray(back.magnitude), m)
 
 
-ALL = ["F1", "F2", "F3", "F3b", "F4", "F5", "F6", "F7", "F8", "F9", "F10", "F11", "F13", "F14", "F15", "F16", "F17", "F18"]
+def F20():
+    """input info keeps the source's mask layout although the input grid is laid out differently (C07)"""
+    g1 = fm.UniformGrid((3, 4))
+    g2 = fm.UniformGrid((3, 4), axes_reversed=True, axes_increase=(True, False))
+    m1 = np.array([[True, False, False], [False, False, False]])
+    out = fm.Output(name="o", info=fm.Info(time=S, grid=g1, units="m", mask=m1))
+    inp = fm.Input(name="i", info=fm.Info(time=S, grid=g2, units="m", mask=fm.Mask.FLEX))
+    out >> inp
+    inp.ping()
+    inp.exchange_info()
+    out.push_data(np.arange(6.0).reshape(2, 3), S)
+    got = inp.pull_data(S)
+    data_mask = np.ma.getmaskarray(got.magnitude)[0]
+    assert np.shape(inp.info.mask) == tuple(g2.data_shape) and np.array_equal(inp.info.mask, data_mask), (inp.info.mask, data_mask)
+
+
+ALL = ["F1", "F2", "F3", "F3b", "F4", "F5", "F6", "F7", "F8", "F9", "F10", "F11", "F13", "F14", "F15", "F16", "F17", "F18", "F20"]
 
 if __name__ == "__main__":
     names = sys.argv[1:] or ALL
